@@ -137,7 +137,9 @@ def header_dims(data: bytes):
                 continue
             ln = struct.unpack(">H", data[i + 2:i + 4])[0]
             if m in B.SOF_MARKERS:
-                if i + 9 <= len(data):
+                # a frame header declares a size only if the segment is complete (Lf = 8 + 3*Nf >= 8, inside the file);
+                # what a reader makes of a truncated or under-length frame header is unspecified
+                if ln >= 8 and i + 2 + ln <= len(data):
                     h, w = struct.unpack(">HH", data[i + 5:i + 9])
                     return (w, h)
                 return None
@@ -271,6 +273,13 @@ def check_doc(spec, obs=None):
             fail(key, f"images per unit {[len(p) for p in per]}, the document places {[len(p) for p in want_per]}")
         elif per != want_per and fmt == "xlsx" and spec.get("opts", {}).get("sheet_files"):
             fail("xlsx.sheet-drawing-by-position", f"images per sheet {[len(p) for p in per]}, the document places {[len(p) for p in want_per]}")
+        if fmt in ("pptx", "odp", "pdf", "rtf") and got == want and len(R) == len(E):
+            # same files in the same order: occurrence k of the result is occurrence k of the document, so the same
+            # picture file placed on several pages / slides must carry each occurrence's own unit number
+            for r, x in zip(R, E):
+                if r["u"] != x["unit"]:
+                    fail(f"{fmt}.unit-number", f"occurrence {r['n']} ({x['member']}) carries unit number {r['u']}, the document places it on {x['unit']}")
+                    break
         if fmt in ("pptx", "odp", "pdf", "rtf"):
             for r in R:
                 e = by_bytes.get(r["b"])
